@@ -11,6 +11,8 @@ R5 shared with C10       every mutation goes to the upper layer (C10.R1) and the
 R2 (cont.)              the helper asks every lower layer before it answers or moves on
 R6 live tree             created nodes are registered (inode table, parent's children) on every path after creation; removed nodes are unregistered after the upper entry is gone
 R7 preconditions         polarity table of the tests in front of the modifying steps (set_opaque/is_opaque on directories only, create_upper_dir recursion, copy-up parent creation, no creation below a whiteout, link source/target)
+R4 (cont.)              create_whiteout reaches mknod only on paths that established a free name; is_opaque answers for a one-byte y/Y only
+R6 (cont.)              add_upper_inode takes over the upper copy's whiteout state and keeps the lower inodes unless asked to clear them
 """
 import json
 import re
